@@ -154,6 +154,154 @@ PROPS = {
             "panic-freedom on syn variants the mirrors do not have (TypeParamBound::Verbatim/PreciseCapture, future #[non_exhaustive] variants)",
         ],
     },
+    "C15": {
+        "units": ["c15_routing"],
+        "classes": r"postcondition|post-condition of closure|assertion failed",
+        "level_text": "The real default bodies of all ten FromMeta methods are proved (Verus, any implementer, any subset of overrides) against default_ensures in call_ensures form: "
+                      "each item goes by its form alone to exactly one hook (word / split list / bool, string, char literal / literal / expression), groups are looked through, "
+                      "every default hook rejects with the documented kind, and the result is res_with_span(hook result, item span). Nine probe implementers (all, none, each single hook) "
+                      "turn this into concrete facts result == table(item) for every item, incl. groups of any depth by induction; unexpected_lit_type/unexpected_expr_type/"
+                      "unknown_lit_str_value/From<syn::Error> proved on their real bodies.",
+        "level_note": "Routing half only. Token-stream splitting (parse_meta_list, Parse/ToTokens for NestedMeta, round trip) is uninterpreted: not applicable to contracts (syn parser combinators). "
+                      "The 2^7 override subsets are covered by the generic default_ensures; probes guard against vacuity. Termination of from_expr on nested groups not proved.",
+        "design_ref": "DESIGN.md section 6 C15",
+        "assumptions": [
+            "syn mirror (prelude/meta_syn.vrs): variant/field shape of Meta, Expr (40 variants, syn 2.0.119), Lit copied from syn; payloads opaque; spans, LitStr/LitChar::value, clone and parse_meta_list are uninterpreted functions of the node",
+            "R17: Verus rejects a postcondition mentioning its own function, so the recursive Self::from_expr call of the default from_expr is tagged assume(expr_hook_rel(arg, result)) and axiom_expr_hook_rel states that such a result satisfies T::from_expr's postcondition",
+            "#[verifier::exec_allows_no_decreases_clause] on the default from_expr (no decreases for trait default methods in Verus): termination not proved",
+            "R10/R12/R18 A-normalisation: match result and map_err result let-bound with proof hints; &X?[..] -> as_slice; `?` on syn::Result spelled out as match + Error::from (R15 inherent twin of From<syn::Error>)",
+            "R3: closures |e| e.with_span(x) get a type and an ensures that is proved against the closure body",
+            "probe hooks are external_body functions returning uninterpreted h_x::<P>(arg) (test doubles only)",
+        ],
+        "not_covered": ["splitting half of C15 (syn parser / printer): parse_meta_list, Parse/ToTokens for NestedMeta, print-parse round trip", "termination of from_expr"],
+    },
+    "C12": {
+        "units": ["c12_wrappers", "c12_override_expr", "c12_ident_atomic"],
+        "classes": r"postcondition|post-condition of closure|assertion failed|precondition not satisfied",
+        "level_text": "Every FromMeta method of Option<T>, darling Result<T>, Result<T,Meta>, Box/Rc/Arc/RefCell<T> (macro instances), Override<T>, SpannedValue<T>, WithOriginal<T,Meta>, Flag, (), bool "
+                      "is proved on its real body, for every T and item, in the form exists r0. call_ensures(T::hook, args, r0) && r == wrap(r0) (from_none likewise; SpannedValue span = path | list tokens | value expr; "
+                      "WithOriginal.original == *item; Result never Err). Probe-instantiated checks prove for PAll/PNone that every item form through each wrapper equals wrap(what T itself returns), and the absent-item behaviour of all wrappers. IdentString: new/From<Ident> establish string == Display(ident); from_meta == syn::Ident's verdict on every item form, wrapped; as_ident/as_str/span/From<IdentString> for Ident and String return exactly the stored parts. AtomicBool::from_meta == bool's verdict re-wrapped, errors spanned (route_AtomicBool: bool's full per-form table).",
+        "level_note": "Override<T> for name=value items is its own obligation (unit c12_override_expr): it failed on the pinned tree (F2) and holds since fix commit b99d737. "
+                      "SpannedValue adds the item's span to a spanless error of T (as C03 demands); otherwise errors are T's unchanged.",
+        "design_ref": "DESIGN.md section 6 C12",
+        "assumptions": [
+            "FromMeta default methods are seen through the default_ensures proved in unit c15_routing (prelude/frommeta_trait.vrs stubs)",
+            "syn mirror and R17 axiom as for C15",
+            "R4: .map(Some/Ok/Box::new/Rc::new/Arc::new/RefCell::new) -> closure with an ensures proved against its body; |_| closures get a named, typed parameter",
+            "Result::or_else contract (std, assumed); str::parse::<bool> modelled by parse_bool: exactly \"true\"/\"false\" (std, assumed)",
+            "RefCell is opaque: RefCell::new(v) == refcell_of(v) (uninterpreted); Box/Rc/Arc use vstd's transparent model (*p == v)",
+            "R8: smart_pointer_t!/with_original! instances are instantiated by tools/extract from darling's own macro_rules",
+            "syn::Ident impl through prelude/syn_ident_impl.vrs (proved in c13_syn_values), bool impl through prelude/bool_impl.vrs (proved in c11_misc)",
+            "AtomicBool opaque mirror (std type is the unstable generic Atomic<bool>): new(b) == atomic_of(b); Ident::span / Display uninterpreted; vstd FromSpecImpl declared for the two From<IdentString> impls (from_spec proved against the bodies)",
+        ],
+        "not_covered": ["IdentString::map, Hash, Display/Debug, PartialEq family", "SpannedValue/WithOriginal impls of the other From* traits", "Override<T> helper methods (as_ref, unwrap_or, ..)", "two-level compositions beyond Box<Option<_>>"],
+    },
+    "C10": {
+        "units": ["c10_field_options", "c10_variant_core_options", "c10_receivers", "c10_element_options", "c10_codegen_views", "c10_shape_words", "c06_middleware", "c06_parse_attr", "l2_options_api"],
+        "classes": r"postcondition|invariant|assertion failed|post-condition of closure",
+        "level_text": "Every derive-time option parser of core/src/options is proved on its real body against contracts written from the rule list: InputField/InputVariant/Core/FromMetaOptions/OuterFrom/ForwardedField::parse_nested, "
+                      "from_field/from_variant, Core::start, all validate_body, the six receivers' `new` (FromMeta, FromAttributes, FromDeriveInput, FromField, FromVariant, FromTypeParam) and their parse_nested/parse_field. "
+                      "Accepted => invariant wf() and exactly the addressed option changed; Err for unknown/repeated options, map+and_then, each flatten conflict in BOTH orders; validate_body grows errors by exactly the number of violations, each at its token; "
+                      "magic fields are recognised by Rust name alone (ident, attrs | vis, generics, data | vis, ty | discriminant, fields | bounds, default) and change exactly their slot; a union, an enum for element-level traits (with or without variants), "
+                      "an unrepresentable tuple body for FromMeta give diagnostics only. Shape words: DeriveInputShapeSet::from_list and DataShape::from_list equal fold oracles (exactly any/struct_*/enum_* resp. the five bare words; first mistake vs all mistakes). "
+                      "Views handed to codegen: from_word = first variant whose word is TRUE, as_codegen_field/as_codegen_variant copy names, flags, defaults and converters, Field::as_name is None iff skip||flatten; forward_attrs lists and will_forward_any.",
+        "level_note": "Deductive proof for all inputs of the option layer, modulo opaque syn and uninterpreted option-value conversions (converse only modulo 'every option value converts'). wf() is a parse-time invariant (after with_inherited only wf_codegen()). "
+                      "F1/F4/F9 fixed by /repo commits ae776c6 / 5ac3a9a / 5a67c48. F16 (DataShape::from_list placed unknown-word diagnostics at the whole supports(..) item, not at the word) fixed by /repo commit 0663dbb. "
+                      "Residual false-alarm risk: restructuring a verified loop.",
+        "design_ref": "DESIGN.md section 6 C10",
+        "assumptions": [
+            "syn/proc_macro2 nodes opaque; Meta/Attribute/Field/Variant/Fields/Data/DeriveInput mirrored with the fields read; Punctuated mirrored as a sequence; spans, path text, ident text are uninterpreted functions of the node; Clone yields an equal value",
+            "syn: a parsed Path has at least one segment (precondition of the two shape from_list functions)",
+            "path.is_ident(s)/get_ident observe an uninterpreted path_ident(p); Ident == Ident compares ident text",
+            "FromMeta conversions of option values (String,bool,Flag,Callable,Path,RenameRule,Vec<WherePredicate>,SpannedValue<T>,PathList,ForwardAttrsFilter,DeriveInputShapeSet,DataShape at the receiver layer) are external functions with uninterpreted results that do not panic; Option<T> and DefaultExpression are proved on their real bodies",
+            "derived Clone/Copy/PartialEq/Default on Flag/SpannedValue/Style/PathList/DataShape replaced by structural impls; ident_case::RenameRule mirrored, renaming uninterpreted",
+            "std: Option::map_or_else / or_else (assume_specification), slice.iter().find (iter_find: first accepted element), str::starts_with / strip_prefix / trim_start_matches / String==str as documented, Cow per vstd",
+            "R5 string matches -> str_eq/opt_str_is chains (name-independent wildcard anchors); R2/R6 iterator chains and for loops -> defining loops; R10 tail let-binding; R11 format! texts uninterpreted; R12 parse_quote!/parse_quote_spanned! -> opaque values determined by the spliced arguments; R15 trait methods in place, parse_attributes in a blanket subtrait",
+            "Fields::as_ref / Fields::map: contract-only here, same contract text proved in c16_body_conversion; Error::unknown_field / unknown_field_path_with_alts, Path::from_expr, NestedMeta::parse_meta_list, From<syn::Error>, From<ExprClosure> for Callable: external; Error/Accumulator contracts proved in l1_error_api / c05_accumulator",
+        ],
+        "not_covered": ["From<&Core> for TraitImpl and the From<&XOptions> for XImpl conversions (Data::as_ref/map_* chains)", "default bodies of ParseData::parse_field / validate_body",
+                        "routing of `supports(..)` / `forward_attrs(..)` items from FromMeta::from_meta to from_list/from_word (C15)", "ToTokens of the option types",
+                        "'word = false' is counted as a word annotation by validate_body (contract and code agree); from_word ignores it (proved)"],
+    },
+    "C06": {
+        "units": ["c06_parse_attr", "c06_middleware", "c10_field_options", "c10_variant_core_options", "c10_receivers", "c10_element_options", "c10_codegen_views", "c10_shape_words", "l2_options_api"],
+        "classes": r"precondition not satisfied|assertion failed|postcondition|invariant|unreachable|panic",
+        "level_text": "Every panic!/unreachable!/unwrap in the option layer is kept in the extracted text and proved unreachable: parse_field/parse_variant/parse_body from the body-shape agreement Core::start establishes and option parsing preserves, "
+                      "Core::as_codegen_default from 'default is never Inherit', get_ident().unwrap() from is_ident, segments.first().unwrap() in the shape word parsers from syn's non-empty-path guarantee. parse_attr is total for every attribute form "
+                      "(bare, name-value, literal items, non-list token content) and no `?`/return executes while an accumulator created in the function is live (R13 ghost counters). All six receivers' `new` return normally with either a receiver whose "
+                      "codegen preconditions hold (wf, representable body, no cross-field violation, struct body for element-level traits) or a bundle of >= 1 diagnostics; a union, an empty enum and an enum with variants are rejected for element-level traits.",
+        "level_note": "Covers the option-parsing half of all six derives. F1/F4 (and F12: empty enum) fixed in /repo (ae776c6, 5ac3a9a, 508a424) and in the baseline. Not covered: codegen to_tokens skeleton, 'exactly one impl block', write_errors. "
+                      "syn parsers and option-value converters are assumed not to panic.",
+        "design_ref": "DESIGN.md section 6 C06",
+        "assumptions": ["as C10", "R13: ghost flag/counter set at Error::accumulator(), asserted clear at every expanded `?`/return (guard_try)",
+                        "R18: `E?` on a syn::Result expanded to match + Error::from(e); NestedMeta::parse_meta_list and From<syn::Error> uninterpreted",
+                        "R12: attr.meta.path() == &parse_quote!(darling) -> path.is_ident(\"darling\")"],
+        "not_covered": ["codegen stage (to_tokens panics are excluded only through the receivers' `new` postconditions)", "From<&XOptions> for XImpl conversions", "derive::* entry points and Error::write_errors"],
+    },
+    "C11": {
+        "units": ["c11_ints", "c11_nonzero", "c11_misc"],
+        "classes": r"postcondition|post-condition of closure|assertion failed|precondition not satisfied",
+        "level_text": "Every instance of from_meta_num! (24 integer targets incl. NonZero) and from_meta_float! (f32, f64), instantiated from darling's own macro_rules on every run, and bool/char/String/PathBuf are proved on their real bodies: "
+                      "from_string(s) == (std_parse::<T>(s) ? Ok(v) : Err(unknown_value(s))); from_value(lit) == Str -> that on the literal's value, Int/Float -> syn's base10_parse verdict through Error::from, any other kind -> unexpected_lit_type, "
+                      "every Err spanned with the literal unless already spanned; char == the single character iff the string has exactly one; bool word == true. Through the trait's default dispatchers (c15_routing) each type's from_meta/from_nested_meta "
+                      "is proved equal to a per-form table (word/list/non-literal expression rejected by form, groups transparent at any depth), and every rejection carries a span. ident_case::RenameRule::from_string == exactly the six spellings of ident_case's FromStr (lowercase, PascalCase, camelCase, snake_case, SCREAMING_SNAKE_CASE, kebab-case), else unknown_value(s), with its per-form table.",
+        "level_note": "Delegation proved; numeric semantics (range, radix, underscores, suffix, zero for NonZero, sign) live in std's FromStr and syn's base10_parse and are TRUSTED as uninterpreted functions of exactly the user's text / literal. "
+                      "No trim/cast/wrap/saturate/default can be inserted without breaking an equality. `x = -5` is a unary expression for syn and is rejected by form (documented: negative numbers must be quoted).",
+        "design_ref": "DESIGN.md section 6 C11",
+        "assumptions": [
+            "str::parse::<T> == std_parse::<T>(chars) (assume_specification on the real call), LitInt/LitFloat::base10_parse::<T> == lit_int_parse/lit_float_parse(lit): uninterpreted",
+            "PathBuf opaque: PathBuf::from(&str) == pathbuf_of(chars) (R11 .into() -> .into_pathbuf()); String/chars()/Chars::next via vstd",
+            "FromMeta defaults through default_ensures proved in c15_routing; Error constructors through contracts proved in l1_error_api/c15_routing; syn mirror prelude/meta_syn.vrs; R17 axiom",
+            "R3: |_| .. / |e| e.with_span(value) closures typed with an ensures proved against the closure body; R4: .map_err(Error::from) eta-expanded; R8 macro instantiation",
+            "str::trim given a content-free contract (prelude/std_trim.vrs) only so that trim-inserting edits are decided",
+            "std_parse::<RenameRule> == rename_rule_of (axiom transcribed from ident_case 1.0.1 FromStr); RenameRule enum mirrored by hand; syn mirror prelude/meta_syn_values.vrs (structural Punctuated/Path)",
+            "prelude/std_chars_nth.vrs: std contract of Iterator::nth on Chars via wrapper chars_nth (opt rewrite so that an edit using it is decided; not used by darling)",
+            "the u8/u16/u32/u64/usize and bool contracts live in prelude/uint_impls.vrs / bool_impl.vrs (body mode here, stubs in c13_arrays / c12_ident_atomic)",
+        ],
+        "not_covered": ["an edit that introduces an untyped closure is flagged (its result is unknown to Verus) even if harmless", "that quoted and unquoted plain-decimal spellings denote the same value (std vs syn parser agreement: trusted)", "termination of the default from_expr on nested groups (R17)"],
+    },
+    "C13": {
+        "units": ["c13_syn_values", "c13_parse_expr", "c13_parse_expr_agree", "c13_callable_group", "c13_arrays"],
+        "classes": r"postcondition|post-condition of closure|assertion failed|precondition not satisfied|invariant",
+        "level_text": "syn::Expr, syn::Path, syn::Ident, from_syn_expr_type! x3, from_syn_parse! x18, from_meta_lit! x8 (from_value), syn::Lit, syn::Meta, Vec<WherePredicate>, Punctuated<T,P>, PathList::from_list, Callable::from_expr, IdentString, "
+                      "preserve_str_literal and parse_str_literal are proved on their real bodies: bare form => Ok(the user's node itself); quoted form => Ok(what syn's parser for T makes of exactly that literal / string) or unknown value at the literal; "
+                      "other literal kinds / expression forms => unexpected type, spanned; invisible groups transparent at any depth (decreases proved); PathList keeps every word in order or fails at the first non-word, spanned. "
+                      "Per-form tables through the default dispatchers for Expr/Path/Ident/ExprArray/Type/Visibility/LitInt/Lit/Meta, every rejection spanned. The helper statements differ only for string literals (lemma_helpers_agree). from_numeric_array! x5 and the Vec halves of from_meta_lit! x8 (from_list/from_value/from_expr): the elements of a bare array, a quoted array (re-parsed through ExprArray::from_value) or the list form are each converted by the element type's own conversion, in order; result = the Vec in order or the FIRST failing element's error (spanned); groups around the array and around each element transparent at any depth; termination of the from_expr<->from_value pair proved.",
+        "level_note": "Token-for-token is equality of the returned node with the user's node (clone == node). syn's grammar is TRUSTED (uninterpreted litstr_parse/syn_parse_str). The helper-agreement obligation (c13_parse_expr_agree, F6) and the group obligation of Callable "
+                      "(c13_callable_group, F10) failed on the pinned tree and hold since fix commits 24bb420 / cab553a; numeric-array elements wrapped in more than one invisible group (F17) since 707c711.",
+        "design_ref": "DESIGN.md section 6 C13",
+        "assumptions": [
+            "prelude/meta_syn_values.vrs: widened syn mirror (opaque Ident/Type*/Visibility/WherePredicate/Punctuated, ExprPath{path}), Clone == equal node, syn::parse_str / LitStr::parse / parse_terminated / LitStr::new / Path::get_ident uninterpreted",
+            "`::syn::Lit` in signatures resolved by `extern crate self as syn` + module wrap (name resolution only)",
+            "R2 Punctuated.into_iter().collect() -> into_vec() (items in order); R11 format!(\"where {}\", s) -> fmt_where(s) == \"where \" + s; R4 parse_with(Punctuated::parse_terminated) -> parse_terminated(); R3/R8/R15/R6 as elsewhere",
+            "FromMeta defaults / Error constructors through contracts proved in c15_routing / l1_error_api",
+            "Punctuated = the sequence of its values (Vec inside; iter()/into_iter() order), Path{leading_colon, segments}, PathArguments::is_none, get_ident with syn's body",
+            "R2c: `.iter().map(f).collect::<Result<Vec<_>>>()` -> its short-circuit loop (opt prefix/suffix pair, closure body in place); R6w: `while let` peel loop -> loop+match with invariant; R1c: `|_|` -> `|__w|`; Result::or_else (std_assumed_wrappers)",
+        ],
+        "not_covered": ["an adapter inserted into a short-circuit chain loses the anchor (exit 2)",
+                        "bare and quoted spellings give EQUAL values (needs parse(print(x)) == x for syn)", "PathList::new/to_strings, Callable From impls, IdentString::map and its Eq/Hash/Display impls"],
+    },
+    "C14": {
+        "units": ["c14_maps", "c14_key_ident"],
+        "classes": r"postcondition|invariant|post-condition of closure|assertion failed|precondition not satisfied",
+        "level_text": "All five map! instances (HashMap<String|Ident|Path,V,S>, BTreeMap<String|Ident,V>) are proved on the macro's real body, for every V: FromMeta and every item list, against ONE oracle over the item sequence "
+                      "(keys_seen/entries/errs after k items): exists vals (V's verdict per named item, via call_ensures) with view(r) == Ok(entries(n)) iff errs(n)==[] else Err(e_multiple(errs(n))), and Ok => exactly n entries; "
+                      "errs has one leaf per literal item (at the literal), per repeated occurrence (at that occurrence's path), per unconvertible key (+ its value's error) and per unconvertible value located at(path text); first occurrence wins, "
+                      "keys with failed values still count as seen. lemma_success_iff: Ok <=> all named, keys convert and are pairwise distinct, values convert. With the deterministic probe PAll, hash and ordered maps are proved to return equal views/errors on every list. "
+                      "KeyFromPath for String/Path/Ident and Error::at_path on their real bodies (Ident: exactly one segment, no leading ::, no arguments; else custom error at the path).",
+        "level_note": "Hash instances hold under builds_valid_hashers::<S>() (hypothesis). The literal-item leaf is located at the literal since fix commit 1784754 (F11). "
+                      "In c14_maps the Ident key conversion is an arbitrary function of the (opaque) path; the real one is proved in c14_key_ident against a structural Path mirror.",
+        "design_ref": "DESIGN.md section 6 C14",
+        "assumptions": [
+            "String / mirrored Ident / mirrored Path are lawful keys: obeys_key_model, key_obeys_cmp_spec (axiom fns in prelude/c14_std.vrs, c14_keys.vrs); vstd contracts of HashSet/HashMap/BTreeMap/Cow",
+            "HashMap::with_capacity_and_hasher returns an empty map (assume_specification); &Cow<str> as &str keeps the text (cow_as_str, R11)",
+            "util::path_to_string is a function of the path (path_str uninterpreted); Clone of Path/Ident yields an equal value; syn mirror as for C15",
+            "R8: rule 3 of map! is instantiated by tools/extract; the constructor expression of rules 1/2 is transcribed in the template head (not sliced)",
+            "R2: nested.iter().map(closure) + for -> as_pair_fn(closure) + index while calling it per item in order; R3/R10 closure headers and let-bound from_meta call; R14 syn::Ident -> Ident",
+            "Accumulator / Error / FromMeta defaults seen through contracts proved in c05_accumulator, l1_error_api, c15_routing",
+        ],
+        "not_covered": ["util::path_to_string body", "value types beyond generic V + probe PAll (nested maps follow from genericity)", "HashMap/BTreeMap from_meta routing into from_list (C15 default)", "constructor expressions in map! rules 1/2"],
+    },
     "C07": {
         "ignore_tags": True,
         "classes_text": r"assertion failed :: .*(__live|__armed)",
